@@ -147,3 +147,41 @@ Proof.
       pose proof (c07_clause2 univ code nc cb s d (Hu2 d Hin) (e_eq _ He)) as H1. cbv zeta in H1. exact (eq_true_false_abs _ H1 E).
     + not_here E.
 Qed.
+
+Lemma reach_S c steps h0 t0 l0 : NoDup (create_txhs steps) -> SInv (run c (init h0 t0 l0) steps).
+Proof.
+  intros Hnd. pose proof (fresh_history_from_distinct_hashes_lemma c steps h0 t0 l0 Hnd) as Hf.
+  apply (run_inv_fresh SInv c); [intros; apply SInv_apply_m; assumption|exact Hf|apply SInv_init].
+Qed.
+
+Lemma c08_clause9 univ code nc cb s e : BatchInv s ->
+  let o := obs_of univ code nc cb s in
+  In e (o_reqs o) ->
+  (negb (r_active (snd e))
+   || match get (Check.rid_ctx (fst e)) (o_ctxs o) with
+      | Some x => t_brun x && (t_batch x =? rid_batch (fst e))
+      | None => false
+      end) = true.
+Proof.
+  intros Hb o Hin. subst o. cbn [obs_of o_reqs o_ctxs] in *. apply in_map_iff in Hin. destruct Hin as ([rid q] & <- & Hin).
+  cbn [fst snd]. destruct (q_active q) eqn:Ea; [|cbn [req_tuple r_active]; rewrite Ea; reflexivity].
+  pose proof (In_get_NoDup rid q (reqs s) (b_keys _ Hb) Hin) as Hg.
+  destruct (b_act _ Hb rid q Hg Ea) as (x & Hx & Hr & Hn).
+  rewrite (get_map_val ctx_tuple). change (Check.rid_ctx rid) with (rid_ctx rid). rewrite Hx. cbn [option_map ctx_tuple t_brun t_batch].
+  rewrite Hr. change (rid_batch rid) with (rid_b rid). rewrite Hn, Z.eqb_refl. apply orb_true_r.
+Qed.
+
+(** clause 9 is the last segment of the list *)
+Theorem model_passes_C08_clause_9_lemma :
+  forall c steps h0 t0 l0 univ seen fired tr sc p st code nc cb,
+    NoDup (create_txhs steps) ->
+    let s := run c (init h0 t0 l0) steps in
+    holds_C08 seen fired tr sc p st (obs_of univ code nc cb s) <> 9.
+Proof.
+  intros c steps h0 t0 l0 univ seen fired tr sc p st code nc cb Hnd s E.
+  destruct (reach_S c steps h0 t0 l0 Hnd) as (Hq & Hb). fold s in Hq, Hb.
+  apply first_fail_in in E; [|lia]. unfold holds_C08 in E; cbv zeta in E.
+  do 16 (split_seg E; [not_here E|]).
+  apply in_map_iff in E. destruct E as (e & E & Hin). injection E as E.
+  pose proof (c08_clause9 univ code nc cb s e Hb Hin) as H1. cbv zeta in H1. exact (eq_true_false_abs _ H1 E).
+Qed.
